@@ -15,7 +15,7 @@
    assumed away (the harness checks the generated names are collision free).
    Go maps are association lists with unique keys; every place where Go iterates over a map is a fold over the
    list in list order, and the theorems show the result does not depend on that order. *)
-From Coq Require Export List NArith Bool.
+From Coq Require Export List NArith ZArith Bool.
 From Dv Require Export GenConsts.
 Export ListNotations.
 Open Scope N_scope.
@@ -68,16 +68,26 @@ Definition new_entry : entry := mkEntry [] 0 0 0 0 false.
 (* (lowest1, nextHop1, lowest2, nextHop2) *)
 Definition best4 := (N * node * N * node)%type.
 
-(* one iteration of the loop `for hop, cost := range e.costs` in RibEntry.refresh *)
-Definition refresh_step (acc : best4) (hc : node * N) : best4 :=
+(* The tie-break among next hops of equal cost.  The property only asks that ties are broken "the same way every time";
+   which hop wins is a parameter: a rank function key (smaller rank wins).  refresh_step_k is the loop body for an
+   arbitrary rank; the executable model uses the direction measured on the implementation (GenConsts.tie_smaller_wins,
+   a behavioural probe): the smaller or the larger name hash.  The test `cost <? INF` is vacuous in the shipped code (an
+   empty slot is (INF, 0) and no hash is below 0) and is what a larger-hash-wins variant has to add. *)
+Definition refresh_step_k (key : node -> Z) (acc : best4) (hc : node * N) : best4 :=
   let '(l1, h1, l2, h2) := acc in
   let (hop, cost) := hc in
-  if (cost <? l1) || ((cost =? l1) && (hop <? h1)) then (cost, hop, l1, h1)
-  else if (cost <? l2) || ((cost =? l2) && (hop <? h2)) then (l1, h1, cost, hop)
+  if (cost <? l1) || ((cost =? l1) && (cost <? INF) && (key hop <? key h1)%Z) then (cost, hop, l1, h1)
+  else if (cost <? l2) || ((cost =? l2) && (cost <? INF) && (key hop <? key h2)%Z) then (l1, h1, cost, hop)
   else acc.
 
-Definition refresh_fold (cs : list (node * N)) : best4 :=
-  fold_left refresh_step cs (INF, 0, INF, 0).
+Definition tie_key (h : node) : Z := if tie_smaller_wins then Z.of_N h else (- Z.of_N h)%Z.
+
+(* one iteration of the loop `for hop, cost := range e.costs` in RibEntry.refresh *)
+Definition refresh_step : best4 -> node * N -> best4 := refresh_step_k tie_key.
+
+Definition refresh_fold_k (key : node -> Z) (cs : list (node * N)) : best4 :=
+  fold_left (refresh_step_k key) cs (INF, 0, INF, 0).
+Definition refresh_fold (cs : list (node * N)) : best4 := refresh_fold_k tie_key cs.
 
 (* RibEntry.refresh: returns the entry and whether lowest/next hops changed *)
 Definition refresh (e : entry) : entry * bool :=
